@@ -141,8 +141,10 @@ example :
     or zero timeout, at any position among the other answers, whatever becomes ready or expires next), and clock
     advance) and every fuel, the
     trace of the model is accepted by the C05 monitor: immediates run in `nextImm` order and before any
-    socket or timer callback; a timer runs only when no socket reported by the latest poll is waiting
-    and no timer has an earlier deadline; no poll blocks while something is runnable, none blocks
+    socket or timer callback; a timer runs only when no socket reported by the latest poll is waiting,
+    no timer has an earlier deadline, and — while a socket registration is held — a poll has come back in
+    this call after its previous callback (the loop looks at the registered descriptors between any callback
+    and the next timer: a descriptor that became ready while the callback ran wins); no poll blocks while something is runnable, none blocks
     indefinitely while a timer is registered or beyond `ceilMs` of the time to the earliest deadline; a
     call that starts with something runnable, or wakes up for a registered descriptor or an expired
     timer, runs a callback before it returns, and does not return 0 (uninterrupted) while the latest
@@ -212,6 +214,39 @@ example : run 50 [.api (.regTimer 0 2147483500000), .run, .run] =
      .runBegin, .poll 2147483000 2147483000000 [] .ok, .poll 0 0 [] .ok, .ret 0,
      .runBegin, .poll 500 500000 [] .ok, .poll 0 0 [] .ok, .cb 0, .cbEnd 0, .poll 0 0 [] .ok, .ret 0] := by
   decide +kernel
+
+/-- two timers that have both expired at the same wake-up and a descriptor that becomes ready while the first timer's
+    callback runs: the loop looks again (zero-timeout poll) after every callback, so the socket's callback runs between
+    the two timers (T S T) -/
+example : run 50 [.api (.regNet 0 4 .wr), .api (.regTimer 1 1000), .api (.regTimer 2 251000), .pollAns (.ans 251001 []),
+                  .pollAns (.ans 0 []), .pollAns (.ans 0 [(4, { w := true })]), .run] =
+    [.op (.regNet 0 4 .wr) .ok, .op (.regTimer 1 1000) .ok, .op (.regTimer 2 251000) .ok,
+     .runBegin, .poll 1 251001 [⟨4, { w := true }, {}⟩] .ok, .poll 0 0 [⟨4, { w := true }, {}⟩] .ok, .cb 1, .cbEnd 0,
+     .poll 0 0 [⟨4, { w := true }, { w := true }⟩] .ok, .cb 0, .cbEnd 0, .poll 0 0 [] .ok, .cb 2, .cbEnd 0,
+     .poll 0 0 [] .ok, .ret 0] := by
+  decide +kernel
+
+/-- the monitor is not vacuous -/
+example :
+    -- a timer right after another callback, a socket registered, no poll in between (what a loop does that skips the
+    -- zero-timeout poll because "the last poll found nothing": seeded change C05-3 of round 6) / with the look /
+    -- a plain EINTR is not a look / nothing to look at without socket registrations / the first callback of a call /
+    -- a look cut short by an interrupt request lets the pass finish (Observation 2)
+    C05.admissible [.op (.regNet 0 4 .wr) .ok, .op (.regTimer 1 1000) .ok, .op (.regTimer 2 251000) .ok, .runBegin,
+                    .poll 1 251001 [⟨4, { w := true }, {}⟩] .ok, .cb 1, .cbEnd 0, .cb 2] = false ∧
+    C05.admissible [.op (.regNet 0 4 .wr) .ok, .op (.regTimer 1 1000) .ok, .op (.regTimer 2 251000) .ok, .runBegin,
+                    .poll 1 251001 [⟨4, { w := true }, {}⟩] .ok, .cb 1, .cbEnd 0, .poll 0 0 [⟨4, { w := true }, {}⟩] .ok,
+                    .cb 2, .cbEnd 0, .poll 0 0 [⟨4, { w := true }, {}⟩] .ok, .ret 0] = true ∧
+    C05.admissible [.op (.regNet 0 4 .wr) .ok, .op (.regTimer 1 1000) .ok, .op (.regTimer 2 251000) .ok, .runBegin,
+                    .poll 1 251001 [⟨4, { w := true }, {}⟩] .ok, .cb 1, .cbEnd 0, .poll 0 0 [⟨4, { w := true }, {}⟩] .eintr,
+                    .cb 2] = false ∧
+    C05.admissible [.op (.regTimer 1 1000) .ok, .op (.regTimer 2 251000) .ok, .runBegin, .poll 1 251001 [] .ok,
+                    .cb 1, .cbEnd 0, .cb 2, .cbEnd 0, .ret 0] = true ∧
+    C05.admissible [.op (.regNet 0 4 .wr) .ok, .op (.regTimer 1 0) .ok, .runBegin, .cb 1] = false ∧
+    C05.admissible [.op (.regNet 0 4 .wr) .ok, .op (.regTimer 1 0) .ok, .op (.regTimer 2 0) .ok, .runBegin,
+                    .poll 0 0 [⟨4, { w := true }, {}⟩] .ok, .cb 1, .cbEnd 0, .poll 0 0 [⟨4, { w := true }, {}⟩] .intr,
+                    .cb 2, .cbEnd 0, .ret 0] = true := by
+  decide
 
 /-- the monitor is not vacuous -/
 example :
